@@ -48,3 +48,38 @@ pub fn err_kind(e: &std::io::Error) -> &'static str {
         _ => "Other",
     }
 }
+
+/// Per-history watchdog for the drivers: a history of calls on changed library code may never
+/// return.  `begin` marks the start of a history; when one runs longer than the limit the process
+/// exits with code 4 (the orchestrator records the journalled history as hung and restarts the
+/// driver after it).
+pub mod watchdog {
+    use std::sync::atomic::{AtomicU64, Ordering};
+    use std::time::{Duration, Instant};
+
+    static START_MS: AtomicU64 = AtomicU64::new(0);
+    static T0: std::sync::OnceLock<Instant> = std::sync::OnceLock::new();
+
+    fn now_ms() -> u64 {
+        (T0.get_or_init(Instant::now).elapsed().as_millis() as u64).max(1)
+    }
+
+    pub fn start(limit_ms: u64) {
+        let _ = now_ms();
+        std::thread::spawn(move || loop {
+            std::thread::sleep(Duration::from_millis(100));
+            let st = START_MS.load(Ordering::SeqCst);
+            if st != 0 && now_ms().saturating_sub(st) > limit_ms {
+                std::process::exit(4);
+            }
+        });
+    }
+
+    pub fn begin() {
+        START_MS.store(now_ms(), Ordering::SeqCst);
+    }
+
+    pub fn end() {
+        START_MS.store(0, Ordering::SeqCst);
+    }
+}
